@@ -14,6 +14,7 @@ import contextlib
 import io
 import random
 
+import common
 import repex_tie as T
 
 
@@ -51,7 +52,15 @@ def predicates(ctx, chain, label, seed, workers):
         by_job = {}
         for (k, j, ens, rgen, rgeneng, pn) in js:
             by_job.setdefault(k, []).append((j, ens, rgen, rgeneng, pn))
-        n_re = sum(1 for line in sim.lines if line.startswith("locked0 ")) if seg > 0 else 0
+        n_re = 0
+        if seg > 0:
+            n_rec = sum(1 for line in sim.lines if line.startswith("locked0 "))
+            n_init = 0     # preps of the initiation loop (before the first loop()): only these can be re-issues
+            for line in sim.lines:
+                if line.startswith("loop"):
+                    break
+                n_init += line.startswith("prep ")
+            n_re = min(n_rec, n_init)
         for k in sorted(by_job):
             ents = sorted(by_job[k])
             key = tuple((e, pn) for (_j, e, _r, _re, pn) in ents)
@@ -109,6 +118,71 @@ def predicates(ctx, chain, label, seed, workers):
     return nstreams
 
 
+def run_chain(ctx, n_ens, segments, steps, seed, rng, wf=False, acc_p=0.7):
+    """A chain of scheduler-shaped segments with PER-SEGMENT settings (what repex_tie.run_history keeps fixed):
+    segments = [{"workers": w, "stop": step or None, "order": "random"|"newest"|"oldest", "screen": 0|1|3}, ...].
+    Mirrors repex_tie._run_segment op by op (same protocol lines for the model)."""
+    import copy
+    import os
+    sims, image, weights = [], None, None
+    for spec in segments:
+        sim = T.Sim(ctx, n_ens, spec["workers"], steps, seed=seed, wf=wf, rng=rng,
+                    cstep=0 if image is None else image["cstep"], image=image, screen=spec.get("screen", 0))
+        sim.image, sim.rich_init = None, False
+        snaps, inflight, error = [], [], None
+
+        def snap(tag):
+            d = sim.op_dump()
+            held = [(md["pin"], [(e, dd["pn_old"]) for e, dd in md["picked"].items()],
+                     {e: dict(dd["eng_idx"]) for e, dd in md["picked"].items()}, os.path.basename(md["w_folder"]))
+                    for md in inflight]
+            snaps.append((tag, d, held))
+
+        try:
+            if image is None:
+                sim.load_initial()
+            else:
+                sim.load_initial([T.FakePath(pn, weights[pn]) for pn in image["active"]],
+                                 {int(k): [float(x) for x in v] for k, v in image["frac"].items()})
+            snap("loaded")
+            base = {"mc_moves": sim.st.mc_moves, "interfaces": sim.st.interfaces, "cap": None}
+            stop0 = spec.get("stop") == 0       # stopped before anything was issued: a restart file with cstep 0
+            if stop0:
+                sim.st.write_toml()
+                sim.image = T.read_image(sim.tmp)
+                sim.weights_by_pn = {pn: v["weights"] for pn, v in sim.st.traj_data.items()}
+            while not stop0 and sim.op_initiate():
+                inflight.append(sim.op_prep(copy.deepcopy(base)))
+                snap("prep")
+            guard = 0
+            while not stop0 and sim.op_loop():
+                guard += 1
+                if guard > 10 * steps + 50 or not inflight:      # changed code must not hang or crash the harness
+                    raise RuntimeError("scheduler loop did not end / nothing in flight")
+                order = spec.get("order", "random")
+                k = len(inflight) - 1 if order == "newest" else 0 if order == "oldest" else rng.randrange(len(inflight))
+                md = inflight.pop(k)
+                status = "ACC" if rng.random() < acc_p else "REJ"
+                md = sim.op_treat(md, status, sim.random_new_weights(md, rng))
+                snap("treat")
+                if spec.get("stop") is not None and sim.st.cstep >= spec["stop"]:
+                    sim.image = T.read_image(sim.tmp)
+                    sim.weights_by_pn = {pn: v["weights"] for pn, v in sim.st.traj_data.items()}
+                    break
+                if sim.st.cstep + sim.st.workers <= sim.st.tsteps:
+                    inflight.append(sim.op_prep(md))
+                    snap("prep")
+        except Exception as e:  # noqa: BLE001
+            error = e
+        sim.snaps, sim.error, sim.inflight_end = snaps, error, inflight
+        sim.close()
+        sims.append(sim)
+        if spec.get("stop") is None or error is not None or sim.image is None:
+            break
+        image, weights = sim.image, sim.weights_by_pn
+    return sims
+
+
 def one(ctx, params, with_model, outs):
     n_ens, workers, steps, seed, wf, restarts = params[:6]
     label = f"n_ens={n_ens} workers={workers} steps={steps} seed={seed} wf={wf} restarts={list(restarts)} ctxseed={ctx.seed}"
@@ -124,6 +198,64 @@ def one(ctx, params, with_model, outs):
         if with_model:
             outs.append((sm, label))
     return chain
+
+
+def one_chain(ctx, n_ens, segments, steps, seed, wf, with_model, outs):
+    """a chain with per-segment workers / completion order / screen (see run_chain)"""
+    label = f"chain n_ens={n_ens} steps={steps} seed={seed} wf={wf} segments={segments} ctxseed={ctx.seed}"
+    chain = run_chain(ctx, n_ens, segments, steps, seed, random.Random(label), wf=wf)
+    chain[-1].params = ["chain", n_ens, segments, steps, seed, wf]
+    n = predicates(ctx, chain, label, seed, max(s["workers"] for s in segments))
+    ctx.count(n, restarts=len(chain) - 1, workers="per-segment",
+              c07_chain="orders=" + "/".join(s.get("order", "random") for s in segments))
+    for sm in chain:
+        if sm.error is not None:
+            ctx.fail("C07:sampler-raised", f"{type(sm.error).__name__}: {sm.error} in {label}",
+                     {"history": label, "params": chain[-1].params, "ctxseed": ctx.seed})
+        for (k, j, ens, rgen, rgeneng, _pn) in job_streams(sm):
+            ctx.distinct((seed, rgen))
+            ctx.distinct((seed, rgeneng))
+        if with_model:
+            outs.append((sm, label))
+    return chain
+
+
+def chain_plans(rng, quick):
+    """restart chains the fixed-parameter histories do not reach: >= 2 restarts with the NEWEST job finishing
+    first (and the oldest first), more workers after a restart than at the stop, fewer workers at the last
+    restart, restart files written at cstep 0 (first job after the restart has ordinal 0), screen 0 / 1 / 3,
+    seed 0 and != 0, one worker (pin 0 only)"""
+    plans = []
+    seeds = (0, 3) if quick else (0, 1, 3, 11)
+    for seed in seeds:
+        for n_ens, w in ((4, 3), (5, 4)) if quick else ((3, 2), (4, 3), (5, 4), (5, 2)):
+            steps = 16 + 2 * n_ens
+            a = rng.randint(2, 5)
+            b = a + rng.randint(2, 4)
+            c = b + rng.randint(2, 4)
+            for order in ("newest", "oldest") if quick else ("newest", "oldest", "random"):
+                plans.append((n_ens, [dict(workers=w, stop=a, order=order, screen=seed % 2),
+                                      dict(workers=w, stop=b, order=order, screen=3),
+                                      dict(workers=w, stop=c, order="random", screen=1),
+                                      dict(workers=w, stop=None, order=order, screen=0)], steps, seed, False))
+            # more workers after each restart than at the stop; fewer only at the LAST restart
+            plans.append((n_ens, [dict(workers=max(1, w - 1), stop=a, order="newest", screen=1),
+                                  dict(workers=w, stop=b, order="newest", screen=0),
+                                  dict(workers=w + (1 if w + 1 < n_ens else 0), stop=c, order="oldest", screen=3),
+                                  dict(workers=1, stop=None, order="random", screen=1)], steps, seed, bool(seed % 2)))
+        # boundaries: steps == workers, steps < workers, and a LAST restart whose remaining steps equal /
+        # fall below the number of recorded jobs (initiate() then starts fewer jobs than workers)
+        plans.append((4, [dict(workers=3, stop=None, order="newest", screen=1)], 3, seed, False))
+        plans.append((4, [dict(workers=3, stop=None, order="oldest", screen=0)], 2, seed, False))
+        plans.append((4, [dict(workers=3, stop=4, order="newest", screen=0),
+                          dict(workers=3, stop=None, order="newest", screen=3)], 6, seed, False))
+        plans.append((4, [dict(workers=3, stop=5, order="oldest", screen=1),
+                          dict(workers=3, stop=None, order="random", screen=0)], 6, seed, False))
+        # restart file of cstep 0, then a normal stop, one worker and several
+        for w in (1, 2):
+            plans.append((4, [dict(workers=w, stop=0, screen=1), dict(workers=w, stop=3, order="newest", screen=0),
+                              dict(workers=w, stop=None, order="oldest", screen=3)], 12, seed, False))
+    return plans
 
 
 # ----------------------------------------------------------------------------- engine set-up of select_shoot
@@ -404,8 +536,21 @@ def run(ctx):
                 plans.append((n_ens, w, steps, seed, bool(seed % 2), (a,)))
                 plans.append((n_ens, w, steps, seed, False, (a, rng.randint(a + 2, steps - 2))))
     outs = []
+
+    def guarded(fn, *args):
+        # an exception of the harness on changed code must not hide what the other generators find
+        try:
+            fn(*args)
+        except common.Timeout:
+            raise
+        except Exception as e:  # noqa: BLE001
+            ctx.extra.setdefault("c07_plan_errors", []).append(f"{fn.__name__}{args[:1]}: {type(e).__name__}: {e}"[:300])
+            ctx.hit("c07_plan_error")
+
     for p in plans:
-        one(ctx, p, ctx._driver_ok, outs)
+        guarded(one, ctx, p, ctx._driver_ok, outs)
+    for (n_ens, segments, steps, seed, wf) in chain_plans(rng, ctx.quick):
+        guarded(one_chain, ctx, n_ens, segments, steps, seed, wf, ctx._driver_ok, outs)
     for sm, label in outs:
         T.compare(ctx, sm, ctx.driver(sm.lines), label)
     if outs:
@@ -413,13 +558,23 @@ def run(ctx):
     # the engine half: every in-process draw of every engine class is made on the job's engine stream
     try:
         from props.c16 import run_c07_engine_streams
-        run_c07_engine_streams(ctx)
+        buf = io.StringIO()        # some engine classes print reminders / warnings: the check stays silent
+        try:
+            with contextlib.redirect_stdout(buf):
+                run_c07_engine_streams(ctx)
+        finally:
+            for line in buf.getvalue().splitlines():
+                if line.startswith("KNOWN-FINDING"):
+                    print(line, flush=True)
     except ImportError as e:  # pragma: no cover
         ctx.extra["c07_engine_streams"] = f"not available: {e}"
     # the set-up of the engines of a job in select_shoot: which engine object gets which stream
-    engine_setup_stub(ctx)
-    engine_setup_real(ctx)
+    guarded(engine_setup_stub, ctx)
+    guarded(engine_setup_real, ctx)
     ctx.assumptions += [
+        "object history: one REPEX_state per segment lives through the whole segment; engine objects are used by "
+        "successive jobs (stale generators) and compared with fresh engine objects; the model is functional, so "
+        "this part is tie-only",
         "numpy: streams with different (entropy, spawn_key) are independent, equal ones identical (not modelled)",
         "identity of a stream = (SeedSequence.entropy, spawn_key) read from the generator objects inside md_items",
         "draws made in-process by moves/engines on these streams are checked in C09/C16 (stream of every logged draw)",
@@ -432,7 +587,11 @@ def replay(ctx, obj):
         print("no history parameters in this replay file:", r)
         return 1
     ctx.seed = r.get("ctxseed", ctx.seed)
-    one(ctx, tuple(r["params"]), False, [])
+    if r["params"][0] == "chain":
+        _tag, n_ens, segments, steps, seed, wf = r["params"]
+        one_chain(ctx, n_ens, segments, steps, seed, wf, False, [])
+    else:
+        one(ctx, tuple(r["params"]), False, [])
     for f in ctx.fails:
         print("still fails:", f["signature"], f["what"])
     # known findings are swallowed by ctx.fail; report them as still failing for a replay
